@@ -15,7 +15,7 @@
 EXTENDS Naturals, Sequences
 
 CoreIds == {"w", "two", "empty", "bsn", "nl", "numstr", "int", "float", "posexp", "t", "null", "ref", "uni", "flow", "chain", "syn", "tens", "qop", "tens3", "slashes", "nlsp", "ann", "ctor1", "holo", "l0", "l2", "l3", "lnest", "lmatrix", "lmap", "lfalsy", "lq", "lslash", "lexpr", "z1", "zpy", "ztrail", "zseal", "zempty"}
-FullIds == {"three", "quote", "bslash", "tab", "truestr", "nullstr", "vsstr", "truedot", "neg", "zero", "one", "fzero", "fone", "big", "exp", "negexp", "bigexp", "intexp", "f1e16", "i1e16", "f17", "finf", "fninf", "f", "ver", "verpre", "var", "vartyped", "ref2b", "path", "hyph", "colon", "pct", "emoji", "alt", "con", "cat", "at", "mixed", "syn3", "slash2", "relpath", "abspath", "docpath", "sjl", "sje", "sjo", "nllead", "ctor2", "ctor0", "holoenum", "l1", "lnullmap", "lemptymap", "ltq", "lann", "lpattern", "z4", "ztab", "zblank3", "linf", "l01", "zblank"}
+FullIds == {"three", "quote", "bslash", "tab", "truestr", "nullstr", "vsstr", "truedot", "neg", "zero", "one", "fzero", "fone", "big", "exp", "negexp", "bigexp", "intexp", "f1e16", "i1e16", "f17", "finf", "fninf", "f", "ver", "verpre", "var", "vartyped", "ref2b", "path", "hyph", "colon", "pct", "emoji", "alt", "con", "cat", "at", "mixed", "syn3", "slash2", "relpath", "abspath", "docpath", "sjl", "sje", "sjo", "nllead", "ctor2", "ctor0", "ctorop", "ctorops", "stageop", "holoenum", "l1", "lnullmap", "lemptymap", "ltq", "lann", "lpattern", "z4", "ztab", "zblank3", "linf", "l01", "zblank"}
 ValIds == CoreIds \cup FullIds
 ZoneIds == {"z1", "zpy", "z4", "ztrail", "zseal", "zempty", "ztab", "zblank3", "zblank"}
 ListIds == {"holo", "holoenum", "l0", "l1", "l2", "l3", "lnest", "lmatrix", "lmap", "lfalsy", "lnullmap", "lemptymap", "lq", "ltq", "lslash", "lexpr", "lann", "lpattern", "linf", "l01"}
@@ -94,6 +94,9 @@ Abs(v) ==
     [] v = "ctor1" -> [t |-> "str", s |-> "NEVER<A>", xs |-> <<>>]
     [] v = "ctor2" -> [t |-> "str", s |-> "NEVER<A,B>", xs |-> <<>>]
     [] v = "ctor0" -> [t |-> "str", s |-> "FOO<>", xs |-> <<>>]
+    [] v = "ctorop" -> [t |-> "str", s |-> "CHECK<lint{U2227}test>", xs |-> <<>>]
+    [] v = "ctorops" -> [t |-> "str", s |-> "RULES<fast{U2192}safe,a{U2228}b>", xs |-> <<>>]
+    [] v = "stageop" -> [t |-> "str", s |-> "STAGE[x{U2228}y]{U2192}DONE", xs |-> <<>>]
     [] v = "holo" -> [t |-> "holo", s |-> "[\"x\"{U2227}REQ{U2192}{U00A7}T]", xs |-> <<>>]
     [] v = "holoenum" -> [t |-> "holo", s |-> "[\"a\"{U2227}ENUM[a,b]]", xs |-> <<>>]
     [] v = "l0" -> [t |-> "list", s |-> "", xs |-> <<>>]
@@ -247,6 +250,15 @@ Spell(v) ==
         <<[k |-> "first", c |-> <<"NEVER", "[", "A", ",", "B", "]">>]>>>>
     [] v = "ctor0" -> <<<<[k |-> "first", c |-> <<"FOO<>">>]>>,
         <<[k |-> "first", c |-> <<"FOO", "[", "]">>]>>>>
+    [] v = "ctorop" -> <<<<[k |-> "first", c |-> <<"\"CHECK<lint", "U2227", "test>\"">>]>>,
+        <<[k |-> "first", c |-> <<"CHECK", "[", "lint", "U2227", "test", "]">>]>>,
+        <<[k |-> "first", c |-> <<"CHECK", "[", "lint", "&", "test", "]">>]>>>>
+    [] v = "ctorops" -> <<<<[k |-> "first", c |-> <<"\"RULES<fast", "U2192", "safe,a", "U2228", "b>\"">>]>>,
+        <<[k |-> "first", c |-> <<"RULES", "[", "fast", "U2192", "safe", ",", "a", "U2228", "b", "]">>]>>,
+        <<[k |-> "first", c |-> <<"RULES", "[", "fast", "->", "safe", ",", "a", "|", "b", "]">>]>>>>
+    [] v = "stageop" -> <<<<[k |-> "first", c |-> <<"\"STAGE[x", "U2228", "y]", "U2192", "DONE\"">>]>>,
+        <<[k |-> "first", c |-> <<"STAGE", "[", "x", "U2228", "y", "]", "U2192", "DONE">>]>>,
+        <<[k |-> "first", c |-> <<"STAGE", "[", "x", "|", "y", "]", "->", "DONE">>]>>>>
     [] v = "holo" -> <<<<[k |-> "first", c |-> <<"[", "\"x\"", "U2227", "REQ", "U2192", "U00A7", "T", "]">>]>>,
         <<[k |-> "first", c |-> <<"[", "\"x\"", "&", "REQ", "->", "#", "T", "]">>]>>,
         <<[k |-> "first", c |-> <<"[", " ", "\"x\"", " ", "U2227", " ", "REQ", " ", "U2192", " ", "U00A7", "T", " ", "]">>]>>,
